@@ -338,6 +338,22 @@ theorem C09_bin_lexer_skip (l : Lexer) (r : Bytes)
     if_false, if_true, or_self]
   exact h2
 
+/-
+NOT YET PROVED (covered by the correspondence op `bskip` and the L3 oracle
+`skip-lands-elsewhere` / `skip-next-token` only):
+
+theorem C09_bin_reader_skip (buffer data : Bytes) (sched : List Step) (rd : Reader) (r : Bytes)
+    (h : RInv rd data) (hfit : Fits rd.buf.cap (rd.remaining data)) (hnf : Src.NoFaults rd.src.sched)
+    (hb : balancedSkip ((rd.remaining data).length / 2 + 1) (rd.remaining data) 1 = some (.ok r)) :
+    (rd.skipContainer).1 = .ok () ∧ (rd.skipContainer).2.remaining data = r ∧ RInv (rd.skipContainer).2 data
+
+i.e. the streamed `TokenReader::skip_container` lands exactly where the lexer's does, for every
+fault-free schedule and every buffer that fits.  The ingredients are in place (`fillBuf_cases`,
+`advance_refines`, the `Stable`/`Local`/`Consumes` families, `skipLoop_balanced`); what is
+missing is the lemma that the inner `while let Ok(..) = read_id(window)` scan (`skipScan`)
+consumes exactly the complete lexemes of the window.
+-/
+
 example : balancedSkip 9 [0x0f, 0, 2, 0, 0x04, 0, 0x04, 0, 0xff, 0xff] 1 = some (.ok [0xff, 0xff]) := by rfl
 
 end Jomini.BinLexer
